@@ -200,3 +200,33 @@ class Pair:
                 t.close()
             except Exception:
                 pass
+
+
+def quiesce(sim, links=(), tasks=(), settle=0.25, limit=120.0):
+    """Sleep (virtual) until the given tasks are done, nothing is in flight and
+    no history event was recorded for two consecutive settle periods.
+    Returns True if quiescent, False if the limit expired."""
+    end = sim.now + limit
+    calm = 0
+    last = sim.nevents
+    while sim.now < end:
+        sim.sleep(settle)
+        busy = any(t.state != core.DONE for t in tasks) or any(not l.quiet() for l in links)
+        if busy or sim.nevents != last:
+            calm = 0
+        else:
+            calm += 1
+            if calm >= 2:
+                return True
+        last = sim.nevents
+    return False
+
+
+def connected_pair(sim, latency=(0.0, 0.0), jitter=0.0, auth=True, **kw):
+    link = kw.pop("link", None) or Link(sim, latency=latency, jitter=jitter)
+    p = Pair(sim, link=link, **kw)
+    p.start()
+    p.wait_server()
+    if auth:
+        p.auth_password()
+    return p
